@@ -103,6 +103,7 @@ structure Lease where
   ip : UInt32
   poolId : UInt32
   exp : Nat              -- ExpiresAt.Unix()
+  expMs : Nat := 0       -- the milliseconds of ExpiresAt within that second (`now.After(ExpiresAt)` sees them)
   cid : Option Bytes := none
   stag : UInt16 := 0     -- never set by pkg/dhcp (no code path assigns Lease.STag/CTag)
   ctag : UInt16 := 0
@@ -117,6 +118,7 @@ structure Srv where
   defaultPool : Option UInt32 := none   -- PoolManager.defaultPoolID (the first pool added)
   maps : Maps := {}
   now : Nat := 0                        -- time.Now().Unix()
+  subMs : Nat := 0                      -- the milliseconds of time.Now() within that second (< 1000)
   serverIp : UInt32 := 0                -- ServerConfig.ServerIP
 
 def assignmentOf (l : Lease) (p : PoolCfg) : Assignment :=
@@ -131,6 +133,27 @@ def Srv.addPool (s : Srv) (p : PoolCfg) : Srv :=
     { s with pools := AMap.insert s.pools p.id p,
              defaultPool := if s.pools.isEmpty then some p.id else s.defaultPool,
              maps := CacheEnc.addPool s.maps p }
+
+/-- `PoolManager.RemovePool`: the pool and its ip_pools entry go; `defaultPoolID` is left as it is -/
+def Srv.removePool (s : Srv) (id : UInt32) : Srv :=
+  match AMap.lookup s.pools id with
+  | none => s
+  | some _ => { s with pools := AMap.erase s.pools id,
+                       maps := { s.maps with pools := AMap.erase s.maps.pools (le32 id) } }
+
+/-- `PoolManager.SetDefaultPool` -/
+def Srv.setDefault (s : Srv) (id : UInt32) : Srv :=
+  match AMap.lookup s.pools id with
+  | none => s
+  | some _ => { s with defaultPool := some id }
+
+/-- `PoolManager.ClassifyClient`: the default pool if it (still) exists, else "the first pool" of a Go map
+    iteration — modelled as the most recently added one, which is exact when at most one pool is left (the
+    generator keeps it so; with more pools left the Go choice is not deterministic) -/
+def Srv.classify (s : Srv) : Option PoolCfg :=
+  match s.defaultPool.bind (AMap.lookup s.pools) with
+  | some p => some p
+  | none => s.pools.head?.map (·.2)
 
 /-- the lease `handleRequest` finds: by MAC, else (relayed, non-empty circuit-id) by circuit-id -/
 def Srv.existing (s : Srv) (mac : Bytes) (relayed : Bool) (reqCid : Option Bytes) : Option Lease :=
@@ -193,13 +216,14 @@ def Srv.commit (s : Srv) (p : PoolCfg) (l : Lease) (stale : Option Bytes) : Srv 
     `reqCid` = the circuit-id of THIS request's option 82 (`none`: no option 82 / no sub-option 1). -/
 def Srv.ack (s : Srv) (mac : Bytes) (ip : UInt32) (relayed : Bool) (reqCid : Option Bytes) : Srv :=
   let ex := s.existing mac relayed reqCid
-  let poolId? := match ex with
-    | some l => some l.poolId
-    | none => s.defaultPool
-  match poolId?.bind (AMap.lookup s.pools) with
+  match (match ex with
+    | some l => AMap.lookup s.pools l.poolId      -- `GetPool(existingLease.PoolID)`
+    | none => s.classify) with
   | none => s        -- "pool not found": NAK, unreachable after an ACK decision
   | some p =>
-    let l : Lease := { mac := mac, ip := ip, poolId := p.id, exp := s.now + p.leaseSecs.toNat, cid := newCid ex reqCid }
+    let l : Lease :=
+      { mac := mac, ip := ip, poolId := p.id, exp := s.now + p.leaseSecs.toNat, expMs := s.subMs,
+        cid := newCid ex reqCid }
     s.commit p l (staleCid s.byCid ex l)
 
 /-- removal of a lease from the lease table, the circuit index and the cache -/
@@ -220,31 +244,42 @@ def Srv.decline (s : Srv) (mac : Bytes) (opt50 : Option UInt32) : Srv :=
   | some l => if opt50 = some l.ip then s.drop { l with mac := mac } else s
   | none => s
 
+/-- `now.After(lease.ExpiresAt)` (millisecond resolution; the cache only ever sees `ExpiresAt.Unix()`) -/
+def Srv.after (s : Srv) (l : Lease) : Bool :=
+  decide (s.now > l.exp) || (decide (s.now = l.exp) && decide (s.subMs > l.expMs))
+
 /-- `cleanupExpiredLeases`: every lease with `now.After(ExpiresAt)` -/
 def Srv.cleanup (s : Srv) : Srv :=
   -- first pass: the keys of the expired leases; second pass: `lease := s.leases[mac]; delete …` for each
-  let expired := (s.leases.filter (fun e => decide (s.now > e.2.exp))).map (·.1)
+  let expired := (s.leases.filter (fun e => s.after e.2)).map (·.1)
   expired.foldl (fun s m => match AMap.lookup s.leases m with
     | some l => s.drop { l with mac := m }
     | none => s) s
 
 inductive Op where
-  | setCfg (mac : Bytes) (ip ifIndex : UInt32)
+  /-- what `Server.Start` does: `SetServerConfig(iface MAC, s.serverIP, ifindex)` -/
+  | setCfg (mac : Bytes) (ifIndex : UInt32)
+  | removePool (id : UInt32)
+  | setDefault (id : UInt32)
   | addPool (p : PoolCfg)
   | ack (mac : Bytes) (ip : UInt32) (relayed : Bool) (reqCid : Option Bytes)
   | release (mac : Bytes)
   | decline (mac : Bytes) (opt50 : Option UInt32)
   | cleanup
   | tick (secs : Nat)
+  | tickMs (ms : Nat)
 
 def Srv.step (s : Srv) : Op → Srv
-  | .setCfg mac ip idx => { s with maps := setServerConfig s.maps mac ip idx }
+  | .setCfg mac idx => { s with maps := setServerConfig s.maps mac s.serverIp idx }
+  | .removePool id => s.removePool id
+  | .setDefault id => s.setDefault id
   | .addPool p => s.addPool p
   | .ack mac ip relayed cid => s.ack mac ip relayed cid
   | .release mac => s.release mac
   | .decline mac o => s.decline mac o
   | .cleanup => s.cleanup
   | .tick n => { s with now := s.now + n }
+  | .tickMs n => { s with now := s.now + (s.subMs + n) / 1000, subMs := (s.subMs + n) % 1000 }
 
 def Srv.run (s : Srv) (ops : List Op) : Srv := ops.foldl Srv.step s
 
